@@ -221,7 +221,7 @@ fn gen_env_name(r: &mut Rng, sw: &Swarm) -> Vec<u8> {
     ];
     if sw.byte_names && r.chance(1, 4) {
         // arbitrary bytes without '/' and NUL, non-empty; up to NAME_MAX minus the longest suffix
-        let n = if r.chance(1, 10) { 246 } else { 1 + r.usize(10) };
+        let n = if r.chance(1, 10) { 246 } else if r.chance(1, 25) { 250 + r.usize(6) } else { 1 + r.usize(10) };
         let mut v: Vec<u8> = (0..n)
             .map(|_| loop {
                 let b = r.next_u64() as u8;
@@ -342,6 +342,7 @@ fn gen_specdir(r: &mut Rng, sw: &Swarm) -> Vec<FileSpec> {
             1 => r.pick(&UNKNOWN).as_bytes().to_vec(),
             _ => {
                 let mut nme = gen_env_name(r, sw);
+                nme.truncate(240);
                 // FOO and FOO.override must not both be present (which one wins is unspecified)
                 nme.push(b'.');
                 nme.extend_from_slice(r.pick(&BEHS).suffix().as_bytes());
@@ -384,6 +385,13 @@ fn layer_names(r: &mut Rng, n: usize) -> Vec<String> {
         let (stem, dotted) = *r.pick(&[("py3", "py3.11"), ("a", "a.b"), ("node", "node.v2.lts"), ("x-1", "x-1.0")]);
         names.push(stem.to_string());
         names.push(dotted.to_string());
+        r.shuffle(&mut names);
+    }
+    if names.is_empty() && n >= 2 && r.chance(1, 4) {
+        // a layer whose name is a plain prefix of a sibling's name
+        let (short, long) = *r.pick(&[("ruby", "ruby-gems"), ("node", "node_modules"), ("a", "a-1"), ("jdk", "jdk17")]);
+        names.push(short.to_string());
+        names.push(long.to_string());
         r.shuffle(&mut names);
     }
     while names.len() < n {
@@ -506,6 +514,7 @@ impl Gen<'_> {
                     strategy,
                     migration,
                     result,
+                    types_after: r.chance(1, 5).then(|| (r.bool(), r.bool(), r.bool())),
                 }
             }
         }
@@ -654,6 +663,7 @@ pub fn gen_history(seed: u64, class: Class, max_steps: usize) -> (History, Swarm
                     batch.push(Op::WriteMetadata {
                         layer,
                         meta: gen_meta(&mut g.r, k),
+                        older_ref: g.r.chance(1, 3),
                     });
                 }
                 K_WENV => batch.push(Op::WriteEnv {
